@@ -33,9 +33,14 @@ def run(tier, out):
     rp = os.path.join(wd, "trace_random.ndjson")
     nrand, rlen = (12, 400) if quick else (150, 400)
     s2 = V.harness_json(["window", "random", nrand, rlen, rp])
+    # (D) session level: real PeerCrypto pairs driven by PeerCrypto::every_second (incl. key rotation), every data
+    #     datagram replayed k = 0..5 housekeeping rounds after its first delivery
+    xp = os.path.join(wd, "trace_session.ndjson")
+    nsess, secs = (6, 400) if quick else (60, 900)
+    s3 = V.harness_json(["window", "session", nsess, secs, xp])
     validated = 0
     samples = []
-    for name, path, summ in (("schedules", tp, s1), ("random", rp, s2)):
+    for name, path, summ in (("schedules", tp, s1), ("random", rp, s2), ("session", xp, s3)):
         v = V.tlc_trace("Trace_NonceWindow.tla", "Trace_NonceWindow.cfg", PID, path, summ["events"], sub="trace-" + name)
         if v.accepted:
             validated += summ["runs"]
@@ -54,10 +59,11 @@ def run(tier, out):
         "states": d.distinct, "transitions": d.generated, "depth": d.depth,
         "traces_validated_against_impl": validated,
         "samples": [{"schedule": scheds[len(scheds) // 2]}, {"trace_excerpt": evs}],
-        "evaluations": s1["steps"] + s2["steps"],
+        "evaluations": s1["steps"] + s2["steps"] + s3["steps"],
         "distinct_nontrivial": len(edges),
         "rule": "every transition of the exhaustive TLC graph of NonceWindow (bounds in %s) executed on real CryptoCore pairs for 3 ciphers; "
-                "%d seeded random histories of length %d over four slots; distinct = exported transitions" % (cfg, nrand, rlen),
+                "%d seeded random histories of length %d over four slots; %d sessions of %d s on real PeerCrypto pairs with rotation and replays 0..5 rounds later; "
+                "distinct = exported transitions" % (cfg, nrand, rlen, nsess, secs),
         "schedules": len(scheds), "exported_transitions": len(edges),
         "self_test": st_desc,
         "checker_cmd": "tlc MC_NonceWindow / Trace_NonceWindow",
